@@ -383,6 +383,10 @@ class Interp:
         self.memo = {}
         self.diag = set()
         self.stats = {}
+        # None: hasattr(self, 'a_') unknown (both branches);  'cold': false until the attribute is stored in this
+        # run (first call on a fresh object);  'warm': true (every lazily created attribute exists already)
+        self.hasattr_mode = None
+        self._stored_now = set()
         self.class_hints = class_hints or {}
         self.heap_changed = False
         self.entity_params = ()
@@ -425,6 +429,7 @@ class Interp:
             self.memo = {}
             self._seen_events = set()
             self.events = []
+            self._stored_now = set()
             self_av = None
             if ci is not None:
                 self_av = AV(origins=FS([("self", ())]), cls=FS(["P:" + ci.name]))
@@ -666,6 +671,7 @@ class Interp:
             frame.env["@self." + attr] = v
         for (root, path) in base.origins:
             self.heap_write(root, path + (attr,), v)
+            self._stored_now.add((root, path + (attr,)))
         self.emit("attr_store", st, frame, base=base, attr=attr, value=v, how=how)
 
     def read_attr(self, base, attr):
@@ -674,9 +680,17 @@ class Interp:
         origins = set()
         out = None
         only_obj = True
+        # the cells of a constructed object receive every store made through a
+        # value that carries its allocation site; the cell reached through a
+        # path from self is a weak summary of ALL objects ever stored there.
+        # Where an object cell exists it is the precise one.
+        has_obj_cell = any(root.startswith("obj:") and self.heap.get((root, path + (attr,))) is not None
+                           for (root, path) in base.origins)
         for (root, path) in base.origins:
             np_ = path + (attr,)
             origins.add((root, np_))
+            if has_obj_cell and not root.startswith("obj:"):
+                continue
             h = self.heap.get((root, np_))
             if h is not None:
                 out = join(out, h)
@@ -713,6 +727,15 @@ class Interp:
         if isinstance(test, ast.UnaryOp) and isinstance(test.op, ast.Not):
             v = self.eval_truth(test.operand, frame)
             return None if v is None else (not v)
+        if self.hasattr_mode is not None and isinstance(test, ast.Call) and isinstance(test.func, ast.Name) \
+                and test.func.id == "hasattr" and len(test.args) == 2 and isinstance(test.args[1], ast.Constant) \
+                and isinstance(test.args[1].value, str) and test.args[1].value.endswith("_"):
+            base = self.eval(test.args[0], frame)
+            if base.origins and all(r == "self" or r.startswith("obj:") for (r, _) in base.origins):
+                if self.hasattr_mode == "warm":
+                    return True
+                attr = test.args[1].value
+                return any((r, pth + (attr,)) in self._stored_now for (r, pth) in base.origins)
         return self.truth(self.eval(test, frame))
 
     def s_If(self, st, frame):
